@@ -862,6 +862,104 @@ def generate(results, mgr_off, srcp):
     return "\n".join(L)
 
 
+# ------------------------------------------------------------------------------------------------
+# acknowledged findings: known_findings.txt -> coq/Gen/GenKnownC06.v
+# ------------------------------------------------------------------------------------------------
+OUT_KNOWN = os.path.join(VERIF, "coq", "Gen", "GenKnownC06.v")
+KNOWN_FILE = os.environ.get("IMB_KNOWN_FINDINGS", os.path.join(VERIF, "known_findings.txt"))
+
+
+def enum_values(prefix):
+    """enumerator values of IMB_CIPHER_* / IMB_AUTH_* from the header, computed by the compiler"""
+    hdr = open(os.path.join(REPO, "lib", "intel-ipsec-mb.h")).read()
+    names = sorted(set(re.findall(r"\b(%s[A-Z0-9_]+)\b" % prefix, hdr)))
+    prog = ["#include <stdio.h>", "#include <intel-ipsec-mb.h>", "int main(void){"]
+    for n in names:
+        prog.append('#ifdef %s\n#else\nprintf("%s %%d\\n", (int)%s);\n#endif' % (n, n, n))
+    prog.append("return 0;}")
+    os.makedirs(os.path.join(BUILD, "gen"), exist_ok=True)
+    with tempfile.TemporaryDirectory(dir=os.path.join(BUILD, "gen")) as d:
+        c = os.path.join(d, "e.c"); x = os.path.join(d, "e")
+        open(c, "w").write("\n".join(prog))
+        p = subprocess.run(["gcc", "-DLINUX", "-I", os.path.join(REPO, "lib"), "-o", x, c], stdout=subprocess.PIPE,
+                           stderr=subprocess.PIPE, text=True)
+        if p.returncode != 0:
+            # some identifiers found textually are not enumerators (e.g. IMB_AUTH_NUM is, IMB_CIPHER_DIRECTION is a type)
+            bad = set(re.findall(r"'(%s[A-Z0-9_]+)' undeclared" % prefix, p.stderr)) | \
+                  set(re.findall(r"expected expression before '(%s[A-Z0-9_]+)'" % prefix, p.stderr))
+            if not bad:
+                raise T1bError("cannot compile the enumerator probe:\n" + p.stderr[-1500:])
+            names = [n for n in names if n not in bad]
+            prog = ["#include <stdio.h>", "#include <intel-ipsec-mb.h>", "int main(void){"] + \
+                   ['printf("%s %%d\\n", (int)%s);' % (n, n) for n in names] + ["return 0;}"]
+            open(c, "w").write("\n".join(prog))
+            run(["gcc", "-DLINUX", "-I", os.path.join(REPO, "lib"), "-o", x, c])
+        out = run([x])
+    return {l.split()[0][len(prefix):]: int(l.split()[1]) for l in out.splitlines()}
+
+
+def parse_known_c06(path=None):
+    """lines  `property=C06 key=<constraints> text`  ->  list of dict(cipher=[..], klen=[..]|None, hash=[..]|None, line)
+    constraints: comma separated  cipher=A|B  klen=24|32  hash=X|Y  hash=!X  (names without IMB_CIPHER_/IMB_AUTH_, or numbers)"""
+    path = path or KNOWN_FILE
+    out = []
+    if not os.path.exists(path):
+        return out
+    C = H = None
+    for line in open(path):
+        line = line.strip()
+        if not line or line.startswith("#") or line.startswith("fixed:"):
+            continue
+        if not re.search(r"\bproperty=C06\b", line):
+            continue
+        m = re.search(r"\bkey=(\S+)", line)
+        if not m:
+            raise T1bError("known_findings.txt: C06 line without key=: " + line)
+        if C is None:
+            C, H = enum_values("IMB_CIPHER_"), enum_values("IMB_AUTH_")
+        ent = dict(cipher=None, klen=None, hash=None, line=line, key=m.group(1))
+        for cons in m.group(1).split(","):
+            if "=" not in cons:
+                raise T1bError("known_findings.txt: bad constraint %r in %s" % (cons, line))
+            a, v = cons.split("=", 1)
+            neg = v.startswith("!")
+            vals = (v[1:] if neg else v).split("|")
+            if a == "cipher":
+                ent["cipher"] = [int(x) if x.isdigit() else C[x] for x in vals]
+            elif a == "klen":
+                ent["klen"] = [int(x) for x in vals]
+            elif a == "hash":
+                hv = [int(x) if x.isdigit() else H[x] for x in vals]
+                ent["hash"] = [h for h in range(1, H["NUM"]) if h not in hv] if neg else hv
+            else:
+                raise T1bError("known_findings.txt: unknown attribute %r (cipher, klen, hash) in %s" % (a, line))
+        if ent["cipher"] is None:
+            raise T1bError("known_findings.txt: C06 key must constrain cipher=: " + line)
+        out.append(ent)
+    return out
+
+
+def generate_known():
+    ents = parse_known_c06()
+    trip = []
+    for e in ents:
+        for c in e["cipher"]:
+            for k in (e["klen"] or [0]):
+                for h in (e["hash"] or [0]):
+                    trip.append((c, k, h))
+    trip = sorted(set(trip))
+    L = ["(* GENERATED by translators/t1b_tables.py from known_findings.txt (lines `property=C06 key=...`) -- DO NOT EDIT.",
+         "   Acknowledged, unrepaired C06 findings as (cipher mode, key length or 0 = any, hash alg or 0 = any).",
+         "   The C06 theorems about the tables and the validation rules are stated for every cell NOT listed here. *)",
+         "From Coq Require Import NArith List.", "Import ListNotations.", "Local Open Scope N_scope.", ""]
+    for e in ents:
+        L.append("(* %s *)" % e["line"].replace("(*", "( *").replace("*)", "* )")[:400])
+    L.append("Definition known_c06 : list (N * N * N) := %s." %
+             coq_list(["(%d, %d, %d)" % t for t in trip], 8))
+    L.append("")
+    return "\n".join(L), ents
+
+
 def write_if_changed(path, content):
     if os.path.exists(path) and open(path).read() == content:
         return False
@@ -899,6 +997,9 @@ def main(argv=None):
         print("GenTables.v %s" % ("up to date" if same else "DIFFERS"))
         return 0 if same else 1
     ch = write_if_changed(OUT, txt)
+    ktxt, kents = generate_known()
+    kch = write_if_changed(OUT_KNOWN, ktxt)
+    print("GenKnownC06.v: %d acknowledged finding line(s)%s" % (len(kents), " (rewritten)" if kch else " (unchanged)"))
     print("GenTables.v: %d variants, %d wrappers, %d table slots cross-checked against the .so%s"
           % (len(results), sum(len(r["wrappers"]) for r in results), nchecked, " (rewritten)" if ch else " (unchanged)"))
     return 0
